@@ -1,8 +1,10 @@
 import SpecterModel.Util
 import SpecterModel.C38.Model
 /-! C38 line-protocol driver.
-`rt <type> <bound|-> <payload> <trail> => wrote=<hex> res=<ok|err:kind> passed=<hex|none> rest=<hex> same=<true|false|na>`
+`rt <type> <bound|-> <payload> <trail> => send=<ok|err|panic> wrote=<hex> res=<ok|err:kind> passed=<hex|none> rest=<hex> same=<true|false|na>`
   real `Send` of a message whose canonical encoding is `payload`, then `trail` appended, then
+  (`send` = how the real `Send` ended: every message in the quantifier must be written, so anything but `ok`
+  violates the statement whatever the reader's bound), then
   `Receive`/`BoundedReceive` into a fresh message through a spy decoder (`passed` = bytes handed to UnmarshalVT).
 `recv <bound|-> <stream> => res=… passed=… rest=…` : raw (malformed) stream.
 `trunc <bound|-> <payload> <k> => …` : the first k bytes of the real frame of `payload`. -/
@@ -52,8 +54,14 @@ def step (_ : Unit) (toks : List String) (rhs : String) : Unit × Verdict :=
       -- statement oracle
       let res := field "res" kvs
       let fits := match bound with | none => true | some m => decide (payload.length ≤ m)
+      let sres := field "send" kvs
       let specFail : Option String :=
-        if fits then
+        if sres = some "panic" then
+          some s!"Send panicked instead of writing the {payload.length}-byte message"
+        else if sres = some "err" then
+          some s!"Send failed instead of writing the {payload.length}-byte message"
+        else if sres ≠ some "ok" then some "send status missing"
+        else if fits then
           if res ≠ some "ok" then some "frame within bound must be received"
           else if field "same" kvs ≠ some "true" then some "message read back differs"
           else if (field "rest" kvs).bind hexToBytes ≠ some trail then some "trailing bytes not intact"
